@@ -2,6 +2,8 @@ package main
 
 import (
 	"fmt"
+
+	"github.com/orda-io/orda/client/pkg/orda"
 )
 
 // splitmix64: every random choice of a run derives from one state seeded by VERIF_SEED.
@@ -42,13 +44,13 @@ type profile struct {
 }
 
 var profiles = map[string]profile{
-	"conv":   {name: "conv", dts: []string{"counter", "map", "list"}, minRep: 2, maxRep: 4, steps: 30, pCall: 0.55, pPub: 0.2, pDlv: 0.25, malformed: 0.03, bigBatch: 0.05, readsShare: 0.05},
-	"conf":   {name: "conf", dts: []string{"map", "list", "counter"}, minRep: 2, maxRep: 4, steps: 24, pCall: 0.6, pPub: 0.18, pDlv: 0.22, malformed: 0.0, bigBatch: 0.02, readsShare: 0.0},
-	"single": {name: "single", dts: []string{"counter", "map", "list"}, minRep: 1, maxRep: 1, steps: 40, pCall: 0.9, pTx: 0.1, malformed: 0.3, bigBatch: 0.05, readsShare: 0.3, obsEvery: true},
-	"order":  {name: "order", dts: []string{"list"}, minRep: 2, maxRep: 4, steps: 30, pCall: 0.5, pPub: 0.22, pDlv: 0.28, malformed: 0.0, bigBatch: 0.05, obsEvery: true},
-	"tx":     {name: "tx", dts: []string{"counter", "map", "list"}, minRep: 2, maxRep: 3, steps: 26, pCall: 0.35, pPub: 0.15, pDlv: 0.2, pTx: 0.22, pMutDlv: 0.08, malformed: 0.15, readsShare: 0.1, obsEvery: true},
-	"snap":   {name: "snap", dts: []string{"counter", "map", "list"}, minRep: 2, maxRep: 3, steps: 30, pCall: 0.42, pPub: 0.17, pDlv: 0.22, pTx: 0.09, pSnap: 0.1, malformed: 0.05, bigBatch: 0.03, readsShare: 0.1, obsEvery: true},
-	"ids":    {name: "ids", dts: []string{"list", "map"}, minRep: 2, maxRep: 3, steps: 30, pCall: 0.5, pPub: 0.2, pDlv: 0.22, pTx: 0.08, malformed: 0.1, bigBatch: 0.35, obsEvery: true},
+	"conv":   {name: "conv", dts: []string{"counter", "map", "list", "document", "document"}, minRep: 2, maxRep: 4, steps: 30, pCall: 0.55, pPub: 0.2, pDlv: 0.25, malformed: 0.03, bigBatch: 0.05, readsShare: 0.05},
+	"conf":   {name: "conf", dts: []string{"map", "list", "document", "document", "counter"}, minRep: 2, maxRep: 4, steps: 24, pCall: 0.6, pPub: 0.18, pDlv: 0.22, malformed: 0.0, bigBatch: 0.02, readsShare: 0.0},
+	"single": {name: "single", dts: []string{"counter", "map", "list", "document", "document"}, minRep: 1, maxRep: 1, steps: 40, pCall: 0.9, pTx: 0.1, malformed: 0.3, bigBatch: 0.05, readsShare: 0.3, obsEvery: true},
+	"order":  {name: "order", dts: []string{"list", "list", "document"}, minRep: 2, maxRep: 4, steps: 30, pCall: 0.5, pPub: 0.22, pDlv: 0.28, malformed: 0.0, bigBatch: 0.05, obsEvery: true},
+	"tx":     {name: "tx", dts: []string{"counter", "map", "list", "document", "document"}, minRep: 2, maxRep: 3, steps: 26, pCall: 0.35, pPub: 0.15, pDlv: 0.2, pTx: 0.22, pMutDlv: 0.08, malformed: 0.15, readsShare: 0.1, obsEvery: true},
+	"snap":   {name: "snap", dts: []string{"counter", "map", "list", "document", "document"}, minRep: 2, maxRep: 3, steps: 30, pCall: 0.42, pPub: 0.17, pDlv: 0.22, pTx: 0.09, pSnap: 0.1, malformed: 0.05, bigBatch: 0.03, readsShare: 0.1, obsEvery: true},
+	"ids":    {name: "ids", dts: []string{"list", "document", "map"}, minRep: 2, maxRep: 3, steps: 30, pCall: 0.5, pPub: 0.2, pDlv: 0.22, pTx: 0.08, malformed: 0.1, bigBatch: 0.35, obsEvery: true},
 }
 
 var mapKeys = []string{"a", "b", "c", "d"}
@@ -178,7 +180,7 @@ func (g *gen) genCall(i int, inTx bool) (string, J) {
 			return "lupdate", J{"pos": p, "vs": g.values(n, true, i)}
 		}
 	case "document":
-		return g.genDocCall(i, bad, read)
+		return g.genDocCall(i, bad, read, inTx)
 	}
 	return "nop", J{}
 }
@@ -267,7 +269,11 @@ func (g *gen) runCase(id int) bool {
 		i := g.r.intn(n)
 		x := float64(g.r.next()%1000000) / 1000000.0
 		var hung bool
+		_, hasTwin := g.twin[i]
 		switch {
+		case x < g.p.pCall && g.w.reps[i].typ == "document" && g.r.intn(5) == 0 && !hasTwin:
+			from, key, pos, to := g.genNav(i)
+			hung = g.emit(g.w.stepNav(i, from, key, pos, to))
 		case x < g.p.pCall:
 			m, a := g.genCall(i, false)
 			hung = g.emit(g.w.stepCall(i, m, a))
@@ -293,12 +299,18 @@ func (g *gen) runCase(id int) bool {
 			fail := g.r.intn(3) == 0
 			g.tag++
 			tag := fmt.Sprintf("t%d", g.tag)
-			hung = g.emit(g.w.stepTx(i, tag, calls, stop, fail))
+			txCmd, txObs, txHung := g.w.stepTx(i, tag, calls, stop, fail)
+			hung = g.emit(txCmd, txObs, txHung)
+			if fmt.Sprint(txObs["err"]) != "0" {
+				// a rollback re-creates the document tree: Document handles obtained before are stale
+				g.w.reps[i].handles = map[string]orda.Document{}
+			}
 			if t, ok := g.twin[i]; ok && !hung {
 				hung = g.emit(g.w.stepTx(t, tag, calls, stop, fail))
 			}
 		case x < g.p.pCall+g.p.pPub+g.p.pDlv+g.p.pTx+g.p.pSnap:
 			if _, ok := g.twin[i]; !ok && i < n {
+				g.w.reps[i].handles = map[string]orda.Document{}
 				hung = g.emit(g.w.stepSnap(i))
 				if !hung {
 					g.twin[i] = len(g.w.reps) - 1
